@@ -17,6 +17,12 @@ inductive Token
   | data (b : Bytes)    -- a byte string
 deriving DecidableEq, Repr
 
+/-- tokens for which the read-back laws are claimed: opcode tokens 0x4f..0xff (a CScriptOp below
+    OP_1NEGATE is a push opcode and swallows what follows it), any integer, any byte string -/
+def Token.inDomain : Token → Prop
+  | .op n => 0x4f ≤ n
+  | _ => True
+
 /-! ### script numbers: minimal little-endian sign-magnitude -/
 
 /-- number of base-256 digits of `n` (0 for 0) -/
